@@ -30,7 +30,7 @@ def like_component(ck, tier, runner):
     if tier == "quick":
         pats = [p for p in pats if len(p) <= 2] + rng.shuffle([p for p in pats if len(p) == 3])[:150]
     # longer patterns around the rewrite classes, with inner wildcards and multi-byte needles
-    for _ in range(120 if tier == "quick" else 2000):
+    for _ in range(400 if tier == "quick" else 2000):
         body = "".join(rng.pick(["a", "b", "é", "ab", "%", "_", "aaaaaaaaaaaab"]) for _ in range(1 + rng.below(3)))
         pats.append(rng.pick(["%", ""]) + body + rng.pick(["%", ""]))
     pats = sorted(set(pats))
